@@ -163,10 +163,14 @@ BD_Shape<T>::congruences() const {
 template <typename T>
 inline void
 BD_Shape<T>::add_constraints(const Constraint_System& cs) {
+  // An unsupported constraint must leave `*this' unchanged:
+  // work on a copy and commit at the end.
+  BD_Shape tmp(*this);
   for (Constraint_System::const_iterator i = cs.begin(),
          cs_end = cs.end(); i != cs_end; ++i) {
-    add_constraint(*i);
+    tmp.add_constraint(*i);
   }
+  m_swap(tmp);
 }
 
 template <typename T>
@@ -178,10 +182,14 @@ BD_Shape<T>::add_recycled_constraints(Constraint_System& cs) {
 template <typename T>
 inline void
 BD_Shape<T>::add_congruences(const Congruence_System& cgs) {
+  // An unsupported congruence must leave `*this' unchanged:
+  // work on a copy and commit at the end.
+  BD_Shape tmp(*this);
   for (Congruence_System::const_iterator i = cgs.begin(),
          cgs_end = cgs.end(); i != cgs_end; ++i) {
-    add_congruence(*i);
+    tmp.add_congruence(*i);
   }
+  m_swap(tmp);
 }
 
 template <typename T>
